@@ -994,7 +994,14 @@ pub fn step(cfg: &Cfg, sut: &mut Sut, m: &mut Model, pre: &Snapshot, op: Op, has
 
     // (iterinvall = an iterator is created, invalidate_all() returns, then the iterator is
     // consumed: for the model an invalidate_all followed by an iteration)
-    let phases: Vec<Op> = if matches!(op, Op::IterInvAll) { vec![Op::InvAll, Op::Iter] } else { vec![op] };
+    let phases: Vec<Op> = if matches!(op, Op::IterInvAll) {
+        vec![Op::InvAll, Op::Iter]
+    } else if let (Op::GetCP(k), Obs::Val(_)) = (op, &obs) {
+        // the lookup found nothing alive, so nothing was cloned: an ordinary get
+        vec![Op::Get(k)]
+    } else {
+        vec![op]
+    };
     for op in phases {
     match op {
         Op::Ins(k, w) => {
@@ -1158,6 +1165,12 @@ pub fn step(cfg: &Cfg, sut: &mut Sut, m: &mut Model, pre: &Snapshot, op: Op, has
             if u {
                 m.excess_ok = false;
             }
+        }
+        // the clone of the stored value panicked: the lookup had found a live entry (it
+        // must be one the model allows), and it is NOT a successful get - the idle timer,
+        // the recency and the read log are as before
+        Op::GetCP(k) => {
+            upper(m, k, None, "get", &mut viol);
         }
         Op::Adv(_) | Op::Sync => {}
         Op::IterInvAll => unreachable!(),
@@ -1591,8 +1604,14 @@ pub fn step(cfg: &Cfg, sut: &mut Sut, m: &mut Model, pre: &Snapshot, op: Op, has
     if pre.sketch.table_len == post.sketch.table_len && (pre.sketch.size as u64 + 4 < pre.sketch.sample_size as u64 || pre.sketch.table_len == 0) {
         let mut want: BTreeMap<u32, u64> = pre.sketch.table.iter().cloned().collect();
         let mut hashes: Vec<u64> = Vec::new();
+        // (a get whose clone of the stored value panicked records nothing)
+        let get_key = match (op, &obs) {
+            (Op::Get(k), _) => Some(k),
+            (Op::GetCP(k), Obs::Val(_)) => Some(k),
+            _ => None,
+        };
         if u {
-            if let Op::Get(k) = op {
+            if let Some(k) = get_key {
                 hashes.push(hasher.hash_of(k));
             }
         } else {
@@ -1604,7 +1623,7 @@ pub fn step(cfg: &Cfg, sut: &mut Sut, m: &mut Model, pre: &Snapshot, op: Op, has
                     _ => 0,
                 })
                 .collect();
-            if let Op::Get(k) = op {
+            if let Some(k) = get_key {
                 all.push(hasher.hash_of(k));
             }
             let applied = all.len().saturating_sub(post.read_ops.len());
